@@ -91,8 +91,12 @@ def run_check(mod, case):
         return Verdict(ok=False, msg=str(e))
     except (KeyboardInterrupt, SystemExit, GeneratorExit):
         raise
-    except RecursionError:
-        raise
+    except RecursionError as e:
+        # unbounded recursion inside the library on a finite input is the library's failure; anywhere else it is ours
+        if not is_library_exception(e):
+            raise
+        notes = "; ".join(getattr(e, "__notes__", [])[:2])
+        return Verdict(ok=False, msg=f"unexpected RecursionError from the library: {e}; {notes[:600]}")
     except BaseException as e:  # noqa
         if is_library_exception(e):
             tb = "".join(traceback.format_exception(type(e), e, e.__traceback__)[-6:])
